@@ -4,13 +4,15 @@ import glob, json, os, re
 HERE = os.path.dirname(os.path.dirname(os.path.abspath(__file__)))
 rows = []
 notes = []
+extra = json.load(open(os.path.join(HERE, "tools", "seeded_history.json")))
 for p in sorted(glob.glob(os.path.join(HERE, "seeded", "*", "meta.json"))):
     m = json.load(open(p))
     res = m.get("checks_result", {})
     cell = ", ".join("%s: %s" % (c, {0: "missed", 1: "VIOLATION", 2: "inconclusive", 124: "timeout"}.get(v["exit"], v["exit"])) + " (%ds)" % v["wall_s"] for c, v in res.items()) or "not evaluated"
     rows.append("| `%s` | %s | %s | %s | %s |" % (m["name"], m["property"], ", ".join(f.replace("src/", "") for f in m.get("files_changed", [])), m.get("needs_to_manifest", ""), cell))
-    if m.get("history"):
-        notes.append("- `%s`: %s" % (m["name"], m["history"]))
+    h = m.get("history") or extra.get(m["name"])
+    if h:
+        notes.append("- `%s`: %s" % (m["name"], h))
 table = ["| seeded change | property | file | needs, to manifest | quick checks run against it (exit) |", "|---|---|---|---|---|"] + rows
 text = "\n".join(table) + "\n\nChecks that were strengthened because a seeded change got past them (or made them inconclusive):\n\n" + "\n".join(notes) + "\n"
 d = open(os.path.join(HERE, "DESIGN.md")).read()
